@@ -14,7 +14,8 @@ import spell
 warnings.simplefilter('ignore', FutureWarning)
 PID = 'C09'
 SOURCES = ['SoupVerif/Properties/C09.lean', 'SoupVerif/Lemmas/Spelling.lean', 'SoupVerif/Spec/Spelling.lean',
-           'SoupVerif/Model/Parser.lean']
+           'SoupVerif/Model/Parser.lean',
+           'SoupVerif/Properties/C09GenHandlers.lean', 'SoupVerif/Generated/PyHandlers.lean', 'SoupVerif/Model/HandlersDyn.lean']
 RULE = ('selectors are generated as sequences of lexical items (spell.g_selector: the whole grammar) and rendered once in '
         'canonical spelling and k times in random spellings: every optional gap gets one of 15 whitespace/comment fillers '
         '(none, spaces, newline+indent, CRLF, FF, comments with and without adjacent spaces, comment containing "* /"), every '
